@@ -6,6 +6,7 @@
 -/
 import Stevia.Generated.Avl32
 import Stevia.Proofs.GenLemmas
+import Stevia.Model.TreeImpTerm
 import Stevia.Proofs.GenTreeBal32
 import Stevia.Proofs.GenTreeAlloc32
 import Stevia.Proofs.GenTreeQuery32
@@ -18,111 +19,172 @@ set_option linter.unusedSimpArgs false
 
 namespace Gen32
 
+/-- `insert`: the translation is the literal `insert` (with the "tree is full" panic of `add` kept as `none`),
+    provided the descent `loop` reaches an empty link or the key within the fuel; otherwise it fails. -/
 theorem insert_eq (d : Rec α β) (m : TreeImage α β) (key : α) (value : β) :
-    (insert d m key value).getD (m, none) = Imp.insert cfgU32 d m key value := by
-  unfold insert Imp.insert
+    insert d m key value = if m.hdr.root = 0 ∨ Imp.insertT d m key (m.recs.length + 1) m.hdr.root = true
+      then Imp.insertO cfgU32 d m key value else none := by
+  unfold insert Imp.insertO
   simp only [forIn, is_full_eq, add_eq, update_child_eq, rebalance_eq, List.nil_append]
   by_cases hroot : m.hdr.root = 0
-  · simp only [hroot, if_true]
+  · simp only [hroot, true_or, if_true]
     by_cases hfull : isFull m = true
-    · simp [hfull]
-    · cases hadd : Imp.add cfgU32 d m key value <;> simp [hfull, hadd, setRoot]
-  · simp only [hroot, if_false]
+    · simp only [hfull, if_true]; rfl
+    · simp only [hfull, if_false]
+      cases hadd : Imp.add cfgU32 d m key value <;> rfl
+  · simp only [hroot, false_or, if_false]
     generalize m.recs.length + 1 = fuel
     generalize m.hdr.root = ref
     generalize [((none : Option Nat), (none : Option Bool), ref)] = path
     induction fuel generalizing ref path with
     | zero => rfl
     | succ n ih =>
-      simp only [Fuel.forIn, insertDescend]
+      simp only [Fuel.forIn, insertDescend, Imp.insertT]
       by_cases h1 : key < (rd d m ref).key
       · by_cases h2 : (rd d m ref).left = 0
         · by_cases hfull : isFull m = true
-          · simp [h1, h2, hfull]
-          · cases hadd : Imp.add cfgU32 d m key value <;> simp [h1, h2, hfull, hadd]
+          · simp only [h1, h2, hfull, if_true, pure_bind]; rfl
+          · simp only [h1, h2, hfull, if_true, if_false]
+            cases hadd : Imp.add cfgU32 d m key value <;> rfl
         · simp only [h1, h2, if_true, if_false, pure_bind]
           exact ih _ _
       · by_cases h3 : (rd d m ref).key < key
         · by_cases h2 : (rd d m ref).right = 0
           · by_cases hfull : isFull m = true
-            · simp [h1, h3, h2, hfull]
-            · cases hadd : Imp.add cfgU32 d m key value <;> simp [h1, h3, h2, hfull, hadd]
+            · simp only [h1, h3, h2, hfull, if_true, if_false, pure_bind]; rfl
+            · simp only [h1, h3, h2, hfull, if_true, if_false]
+              cases hadd : Imp.add cfgU32 d m key value <;> rfl
           · simp only [h1, h3, h2, if_true, if_false, pure_bind]
             exact ih _ _
-        · simp [h1, h3]
+        · simp only [h1, h3, if_false, pure_bind]; rfl
 
+/-- State `(node, path, left by its condition)` of the descent loop of `remove` after `n` iterations. -/
+def remDescSt (d : Rec α β) (m : TreeImage α β) (key : α) :
+    Nat → Nat × List Ancestor × Bool → Nat × List Ancestor × Bool
+  | 0, s => s
+  | n + 1, s =>
+    if s.1 = 0 then (s.1, s.2.1, true)
+    else if key < (rd d m s.1).key then
+      remDescSt d m key n ((rd d m s.1).left, s.2.1 ++ [(some s.1, some false, (rd d m s.1).left)], s.2.2)
+    else if (rd d m s.1).key < key then
+      remDescSt d m key n ((rd d m s.1).right, s.2.1 ++ [(some s.1, some true, (rd d m s.1).right)], s.2.2)
+    else (s.1, s.2.1, true)
+
+theorem remDescSt_eq (d : Rec α β) (m : TreeImage α β) (key : α) (n node : Nat) (path : List Ancestor) :
+    remDescSt d m key n (node, path, false) =
+      ((removeDescend d m key n node path).1, (removeDescend d m key n node path).2, Imp.findT d m key n node) := by
+  induction n generalizing node path with
+  | zero => rfl
+  | succ n ih =>
+    simp only [remDescSt, removeDescend, Imp.findT]
+    by_cases h0 : node = 0
+    · simp only [h0, if_true]
+    · by_cases h1 : key < (rd d m node).key
+      · simp only [h0, h1, if_true, if_false]; exact ih _ _
+      · by_cases h2 : (rd d m node).key < key
+        · simp only [h0, h1, h2, if_true, if_false]; exact ih _ _
+        · simp only [h0, h1, h2, if_false]
+
+/-- State `(leftmost, its parent, inner path, left by its condition)` of the successor walk of `remove`. -/
+def leftSt (d : Rec α β) (m : TreeImage α β) :
+    Nat → Nat × Nat × List Ancestor × Bool → Nat × Nat × List Ancestor × Bool
+  | 0, s => s
+  | n + 1, s =>
+    if (rd d m s.1).left = 0 then (s.1, s.2.1, s.2.2.1, true)
+    else leftSt d m n ((rd d m s.1).left, s.1, s.2.2.1 ++ [(some s.1, some false, (rd d m s.1).left)], s.2.2.2)
+
+theorem leftSt_eq (d : Rec α β) (m : TreeImage α β) (n lm par : Nat) (inner : List Ancestor) :
+    leftSt d m n (lm, par, inner, false) =
+      ((leftmostWalk d m n lm par inner).1, (leftmostWalk d m n lm par inner).2.1,
+        (leftmostWalk d m n lm par inner).2.2, Imp.leftT d m n lm) := by
+  induction n generalizing lm par inner with
+  | zero => rfl
+  | succ n ih =>
+    simp only [leftSt, leftmostWalk, Imp.leftT]
+    by_cases h0 : (rd d m lm).left = 0
+    · simp only [h0, ne_eq, not_true_eq_false, if_true, if_false]
+    · simp only [h0, ne_eq, not_false_eq_true, if_true, if_false]; exact ih _ _ _
+
+/-- `remove`: the translation is the literal `remove`, provided both loops leave by their own conditions within the
+    fuel (`Imp.removeTerm`); otherwise it fails. -/
 theorem remove_eq (d : Rec α β) (m : TreeImage α β) (key : α) :
-    remove d m key = Imp.remove d m key := by
-  unfold remove Imp.remove
-  simp only [forIn, Id.run, update_child_eq, rebalance_eq, List.nil_append]
+    remove d m key = if Imp.removeTerm d m key then some (Imp.remove d m key) else none := by
+  unfold remove Imp.remove Imp.removeTerm
+  simp only [forIn, update_child_eq, rebalance_eq, List.nil_append]
   by_cases hroot : m.hdr.root = 0
   · simp only [hroot, if_true]; rfl
   · simp only [hroot, if_false]
-    rw [Fuel.forIn_eq_of _ (fun n s => removeDescend d m key n s.1 s.2) (fun s => rfl)]
-    · simp only [pure_bind]
-      generalize removeDescend d m key (m.recs.length + 1) m.hdr.root [(none, none, m.hdr.root)] = r1
-      obtain ⟨nodeIndex, path⟩ := r1
-      simp only []
-      by_cases h0 : nodeIndex = 0
-      · simp only [h0, if_true]; rfl
-      · simp only [h0, if_false]
-        by_cases h2 : (rd d m nodeIndex).left ≠ 0 ∧ (rd d m nodeIndex).right ≠ 0
-        · simp only [h2, if_true]
-          rw [Fuel.forIn_eq_of _ (fun n s => leftmostWalk d m n s.1 s.2.1 s.2.2) (fun s => rfl)]
-          · simp only [pure_bind]
+    rw [Fuel.forIn_eq_of_opt _ (remDescSt d m key) (fun s => rfl)]
+    · simp only [Option.bind_eq_bind, Option.bind_some, remDescSt_eq, Imp.removeT]
+      by_cases hT : Imp.findT d m key (m.recs.length + 1) m.hdr.root = true
+      · simp only [hT, not_true_eq_false, if_false, Bool.true_and]
+        generalize removeDescend d m key (m.recs.length + 1) m.hdr.root [(none, none, m.hdr.root)] = r1
+        obtain ⟨nodeIndex, path⟩ := r1
+        simp only []
+        by_cases h0 : nodeIndex = 0
+        · simp only [h0, if_true]; rfl
+        · simp only [h0, if_false]
+          by_cases h2 : (rd d m nodeIndex).left ≠ 0 ∧ (rd d m nodeIndex).right ≠ 0
+          · simp only [if_pos h2]
+            rw [Fuel.forIn_eq_of_opt _ (leftSt d m) (fun s => rfl)]
+            · simp only [Option.bind_some, leftSt_eq]
+              by_cases hL : Imp.leftT d m (m.recs.length + 1) (rd d m nodeIndex).right = true
+              · simp only [hL, not_true_eq_false, if_false, if_true]
+                have hdef : ((none : Option Nat), (none : Option Bool), 0) = (default : Ancestor) := rfl
+                have hb : (default : Bool) = false := rfl
+                simp only [hdef, hb, remove_node_eq d _ _ h0]
+                generalize leftmostWalk d m (m.recs.length + 1) (rd d m nodeIndex).right 0 [] = r2
+                obtain ⟨lm, par, inner⟩ := r2
+                generalize path.getLast?.getD default = last
+                obtain ⟨p, b, c⟩ := last
+                generalize (rd d m nodeIndex).left = left at h2 ⊢
+                generalize (rd d m nodeIndex).right = right at h2 ⊢
+                simp only [if_pos h2]
+                by_cases hpar : par ≠ 0 <;> by_cases hrl : right ≠ lm <;> cases p <;>
+                  (try simp only [if_pos hpar, if_neg hpar, if_pos hrl, if_neg hrl]) <;>
+                  cases inner <;>
+                  (try simp only [List.isEmpty_nil, List.isEmpty_cons, not_true_eq_false, not_false_eq_true, if_true, if_false,
+                    Bool.false_eq_true, List.dropLast_nil, List.append_nil]) <;>
+                  split <;> rename_i hr <;>
+                  first
+                    | (simp only [if_pos hr]; rfl)
+                    | (simp only [if_neg hr]; rfl)
+                    | rfl
+              · simp only [hL, Bool.false_eq_true, not_false_eq_true, if_true, if_false]
+                rfl
+            · intro n s
+              obtain ⟨lm, par, inner, ex⟩ := s
+              simp only [leftSt]
+              by_cases hn : (rd d m lm).left = 0
+              · simp only [hn, ne_eq, if_true, if_false, not_true_eq_false, not_false_eq_true]; rfl
+              · simp only [hn, ne_eq, if_true, if_false, not_true_eq_false, not_false_eq_true]; rfl
+          · simp only [h2, if_false, if_true]
             have hdef : ((none : Option Nat), (none : Option Bool), 0) = (default : Ancestor) := rfl
-            have hb : (default : Bool) = false := rfl
-            simp only [hdef, hb, remove_node_eq d _ _ h0]
-            generalize leftmostWalk d m (m.recs.length + 1) (rd d m nodeIndex).right 0 [] = r2
-            obtain ⟨lm, par, inner⟩ := r2
+            simp only [hdef, remove_node_eq d _ _ h0]
+            generalize (if (rd d m nodeIndex).left = 0 ∧ (rd d m nodeIndex).right = 0 then 0
+              else if (rd d m nodeIndex).left ≠ 0 then (rd d m nodeIndex).left else (rd d m nodeIndex).right) = child
             generalize path.getLast?.getD default = last
             obtain ⟨p, b, c⟩ := last
-            generalize (rd d m nodeIndex).left = left at h2 ⊢
-            generalize (rd d m nodeIndex).right = right at h2 ⊢
-            simp only [if_pos h2]
-            have hin : (if ¬inner.isEmpty = true then inner.dropLast else inner) = inner.dropLast := by
-              cases inner <;> rfl
-            by_cases hpar : par ≠ 0 <;> by_cases hrl : right ≠ lm <;> cases p <;>
-              (try simp only [if_pos hpar, if_neg hpar, if_pos hrl, if_neg hrl]) <;>
-              cases inner <;>
-              (try simp only [List.isEmpty_nil, List.isEmpty_cons, not_true_eq_false, not_false_eq_true, if_true, if_false,
-                Bool.false_eq_true, List.dropLast_nil, List.append_nil]) <;>
-              split <;> rename_i hr <;>
-              first
-                | (simp only [if_pos hr]; rfl)
-                | (simp only [if_neg hr]; rfl)
-                | rfl
-          · intro n s
-            obtain ⟨lm, par, inner⟩ := s
-            simp only [leftmostWalk]
-            by_cases hn : (rd d m lm).left = 0
-            · simp only [hn, ne_eq, if_true, if_false, not_true_eq_false, not_false_eq_true]; rfl
-            · simp only [hn, ne_eq, if_true, if_false, not_true_eq_false, not_false_eq_true]; rfl
-        · simp only [h2, if_false]
-          have hdef : ((none : Option Nat), (none : Option Bool), 0) = (default : Ancestor) := rfl
-          simp only [hdef, remove_node_eq d _ _ h0]
-          generalize (if (rd d m nodeIndex).left = 0 ∧ (rd d m nodeIndex).right = 0 then 0
-            else if (rd d m nodeIndex).left ≠ 0 then (rd d m nodeIndex).left else (rd d m nodeIndex).right) = child
-          generalize path.getLast?.getD default = last
-          obtain ⟨p, b, c⟩ := last
-          cases p with
-          | none =>
-            by_cases hr : nodeIndex = m.hdr.root
-            · simp only [if_pos hr]; rfl
-            · simp only [if_neg hr]; rfl
-          | some p =>
-            have hb : (default : Bool) = false := rfl
-            simp only [hb]
-            by_cases hc : child ≠ 0
-            · by_cases hr : nodeIndex = (updateChild d m p (b.getD false) child).hdr.root
-              · simp only [if_pos hc, if_pos hr]; rfl
-              · simp only [if_pos hc, if_neg hr]; rfl
-            · by_cases hr : nodeIndex = (updateChild d m p (b.getD false) child).hdr.root
-              · simp only [if_neg hc, if_pos hr]; rfl
-              · simp only [if_neg hc, if_neg hr]; rfl
+            cases p with
+            | none =>
+              by_cases hr : nodeIndex = m.hdr.root
+              · simp only [if_pos hr]; rfl
+              · simp only [if_neg hr]; rfl
+            | some p =>
+              have hb : (default : Bool) = false := rfl
+              simp only [hb]
+              by_cases hc : child ≠ 0
+              · by_cases hr : nodeIndex = (updateChild d m p (b.getD false) child).hdr.root
+                · simp only [if_pos hc, if_pos hr]; rfl
+                · simp only [if_pos hc, if_neg hr]; rfl
+              · by_cases hr : nodeIndex = (updateChild d m p (b.getD false) child).hdr.root
+                · simp only [if_neg hc, if_pos hr]; rfl
+                · simp only [if_neg hc, if_neg hr]; rfl
+      · simp only [hT, Bool.false_eq_true, not_false_eq_true, if_true, Bool.false_and, if_false]
+        rfl
     · intro n s
-      obtain ⟨node, path⟩ := s
-      simp only [removeDescend]
+      obtain ⟨node, path, ex⟩ := s
+      simp only [remDescSt]
       by_cases hn : node = 0
       · simp only [hn, if_true, ne_eq, not_true_eq_false, not_false_eq_true]; rfl
       · by_cases h1 : key < (rd d m node).key
